@@ -288,6 +288,19 @@ pub fn save_hang(id: &str, fmt: Fmt, bytes: &[u8], phase: &str) -> PathBuf {
     p
 }
 
+/// Remove scratch directories left behind by processes that no longer exist
+/// (killed workers / debugging sessions).
+pub fn sweep_stale_dirs() {
+    let Ok(rd) = std::fs::read_dir(tmp_root()) else { return };
+    for e in rd.filter_map(|e| e.ok()) {
+        let name = e.file_name().to_string_lossy().to_string();
+        let Some(pid) = name.split('-').next().and_then(|p| p.parse::<u32>().ok()) else { continue };
+        if pid == std::process::id() || !Path::new(&format!("/proc/{pid}")).exists() {
+            let _ = std::fs::remove_dir_all(e.path());
+        }
+    }
+}
+
 pub fn is_dir_empty(p: &Path) -> bool {
     std::fs::read_dir(p).map(|mut d| d.next().is_none()).unwrap_or(true)
 }
